@@ -112,7 +112,34 @@ def tla(v):
     raise TypeError(f"no TLA+ literal for {type(v)}")
 
 
-def run(module_path, cfg, defs=None, workers=1, coverage=False, env=None, timeout=3600, heap="4g",
+class _Slot:
+    """Machine-wide limit on concurrently running TLC JVMs (several checks / builders share the
+    sandbox): one of VERIF_TLC_SLOTS lock files is held for the duration of a run."""
+
+    def __enter__(self):
+        import fcntl
+        n = int(os.environ.get("VERIF_TLC_SLOTS", "12"))
+        d = os.path.join(WORK, "slots")
+        os.makedirs(d, exist_ok=True)
+        self.f = None
+        while self.f is None:
+            for i in range(n):
+                f = open(os.path.join(d, f"slot{i}"), "w")
+                try:
+                    fcntl.flock(f, fcntl.LOCK_EX | fcntl.LOCK_NB)
+                    self.f = f
+                    break
+                except OSError:
+                    f.close()
+            if self.f is None:
+                time.sleep(0.2)
+        return self
+
+    def __exit__(self, *a):
+        self.f.close()
+
+
+def run(module_path, cfg, defs=None, workers=1, coverage=False, env=None, timeout=3600, heap="2g",
         simulate=None, depth=None, seed=None, keep=False, continue_=False, extra=()):
     """Run TLC.  module_path relative to /verif/spec.  Returns TlcResult.
 
@@ -127,7 +154,7 @@ def run(module_path, cfg, defs=None, workers=1, coverage=False, env=None, timeou
         with open(cfg_path, "w") as f:
             f.write(cfg)
         libs = [os.path.join(SPEC, "lib"), mod_dir]
-        cmd = ["java", "-XX:+UseParallelGC", f"-Xmx{heap}", "-Xss64m",
+        cmd = ["java", "-XX:+UseParallelGC", f"-XX:ParallelGCThreads={max(2, min(4, int(workers)))}", f"-Xmx{heap}", "-Xss64m",
                "-DTLA-Library=" + os.pathsep.join(libs),
                "-cp", JAR + os.pathsep + DEPS, "tlc2.TLC",
                "-config", cfg_path, "-workers", str(workers),
@@ -160,12 +187,13 @@ def run(module_path, cfg, defs=None, workers=1, coverage=False, env=None, timeou
         e.pop("JAVA_TOOL_OPTIONS", None)
         if env:
             e.update({k: str(v) for k, v in env.items()})
-        t0 = time.time()
-        try:
-            p = subprocess.run(cmd, cwd=wd, env=e, stdout=subprocess.PIPE, stderr=subprocess.STDOUT,
-                               timeout=timeout, text=True, errors="replace")
-        except subprocess.TimeoutExpired:
-            raise TlcError(f"TLC timed out after {timeout}s on {module_path}")
+        with _Slot():
+            t0 = time.time()
+            try:
+                p = subprocess.run(cmd, cwd=wd, env=e, stdout=subprocess.PIPE, stderr=subprocess.STDOUT,
+                                   timeout=timeout, text=True, errors="replace")
+            except subprocess.TimeoutExpired:
+                raise TlcError(f"TLC timed out after {timeout}s on {module_path}")
         r = TlcResult()
         r.wall = time.time() - t0
         r.out = p.stdout
